@@ -32,7 +32,9 @@ VARIABLES store,      \* GraphStore state: graph name -> [V, E]
           lin         \* the order in which the effect steps happened
 vars == <<store, schemas, jobs, up, sess, ph, res, lin>>
 
-GS == INSTANCE GraphStore WITH gs <- store, hist <- <<>>, HistLen <- 0
+\* only the state-independent operators of GraphStore are used (Eff, ObsG, element constructors); its
+\* other variables are bound to a dummy (the driver regenerates this line from GraphStore's VARIABLES)
+GS == INSTANCE GraphStore WITH gs <- store, HistLen <- 0, hist <- <<>>, fin <- <<>>
 
 ------------------------------------------------------------------------
 (* elements; the data of an element is named by a number: 0 is the empty  *)
